@@ -258,12 +258,12 @@ fn fresh_reader<const N: usize>(src: Src<N>, multi: bool) -> XZReader<'static, S
 #[kani::proof]
 #[kani::unwind(6)]
 fn c05c_block_padding_short_reads() {
-    let mut src = Src::<3>::full(kani::any());
+    let mut src = FaultySrc::<3>::new(kani::any(), 3);
     let chunk: usize = kani::any();
     kani::assume(chunk >= 1 && chunk <= 3);
     src.chunk = chunk;
     let bytes = src.buf;
-    let mut r = fresh_reader(src, false);
+    let mut r = XZReader::new(src, false);
     let n: u64 = kani::any();
     kani::assume(n < (1u64 << 62)); // a counter of bytes really read; 2^62 bytes cannot have been read
     r.compressed_bytes_read.set(n);
